@@ -144,20 +144,8 @@ func GenSelect(t *rapid.T, kind StoreKind, pairs []Pair, o SelOpts) *Stmt {
 				default:
 					ty := rapid.SampledFrom(fieldTypes).Draw(t, "fieldType")
 					e = c.GenTyped(t, ty, rapid.IntRange(0, 2).Draw(t, "fieldDepth"))
-					if e.K == "ref" {
-						// a bare name as a whole select field is not a "use of the
-						// name" the language resolves (it evaluates to its spelling)
-						switch e.T {
-						case TyText:
-							e = Bin("+", e, Str(""))
-						case TyInt:
-							e = Bin("+", e, Int(0))
-						case TyFloat:
-							e = Bin("*", e, Float("1.0"))
-						default:
-							e = Key()
-						}
-					}
+					// a bare name as a whole select field (int(value) as n, n as m)
+					// refers to the named field like any other use of the name
 				}
 				f := SelField{E: e}
 				if o.Aliases && rapid.IntRange(0, 3).Draw(t, "aliased") != 0 {
@@ -275,6 +263,7 @@ func genAggregateSelect(t *rapid.T, c *GenCtx, st *Stmt, o SelOpts) {
 	ngroup := rapid.IntRange(0, 3).Draw(t, "ngroup")
 	seq := 0
 	var groupRefs []*Node
+	var groupVals []*Node // group by values usable inside an aggregate field
 	for i := 0; i < ngroup; i++ {
 		var e *Node
 		switch rapid.IntRange(0, 5).Draw(t, "groupForm") {
@@ -327,12 +316,30 @@ func genAggregateSelect(t *rapid.T, c *GenCtx, st *Stmt, o SelOpts) {
 		c.addAlias(name, e)
 		if e.T == TyText || e.T == TyInt {
 			groupRefs = append(groupRefs, Ref(name, e.T))
+			if o.Aliases {
+				groupVals = append(groupVals, Ref(name, e.T))
+			} else {
+				groupVals = append(groupVals, e)
+			}
 		}
 	}
 	nagg := rapid.IntRange(1, 3).Draw(t, "nagg")
 	var aggRefs []*Node // names of earlier numeric aggregate fields
 	for i := 0; i < nagg; i++ {
 		e := genAggrExpr(t, c)
+		if len(groupVals) > 0 && e.T == TyInt && rapid.IntRange(0, 4).Draw(t, "aggWithGroupValue") == 0 {
+			// a GROUP BY value next to the aggregate in one field: it is that
+			// group's value (strlen(key) + count(1), g1 * count(1))
+			g := rapid.SampledFrom(groupVals).Draw(t, "groupValue").Clone()
+			if g.T == TyInt {
+				e = Bin(rapid.SampledFrom([]string{"+", "*", "-"}).Draw(t, "groupValueOp"), g, e)
+			} else {
+				e = Bin("+", g, Call("str", e))
+			}
+		} else if e.T == TyInt && rapid.IntRange(0, 7).Draw(t, "aggInScalar") == 0 {
+			// the aggregate inside the argument of a scalar function
+			e = Call("str", e)
+		}
 		if len(aggRefs) > 0 && (e.T == TyInt || e.T == TyFloat) && rapid.IntRange(0, 2).Draw(t, "aggUsesName") == 0 {
 			// an aggregate field built on the name of an earlier one, as an
 			// operand or inside a function argument
@@ -357,7 +364,11 @@ func genAggregateSelect(t *rapid.T, c *GenCtx, st *Stmt, o SelOpts) {
 		st.Fields = append(st.Fields, f)
 	}
 	// shuffle the select list a little: aggregates may come first
-	if len(st.Fields) > 1 && rapid.Bool().Draw(t, "aggFirst") {
+	// (not when it uses field names: a name used before its field is listed
+	// only resolves when that field uses no further names, which the
+	// language does not promise either way)
+	lastUsesNames := st.Fields[len(st.Fields)-1].E.Has(func(x *Node) bool { return x.K == "ref" })
+	if len(st.Fields) > 1 && !lastUsesNames && rapid.Bool().Draw(t, "aggFirst") {
 		last := st.Fields[len(st.Fields)-1]
 		copy(st.Fields[1:], st.Fields[:len(st.Fields)-1])
 		st.Fields[0] = last
